@@ -1,4 +1,9 @@
 open Drv_common
+module M = struct
+  include Drv_common.M
+  include Bank
+  include BankOps
+end
 (* ------------------------------------------------------------------ bankops (level B) *)
 let nn (t : toks) : M.nat =
   let rec go k = if k = 0 then M.O else M.S (go (k - 1)) in go (ni t)
@@ -20,8 +25,8 @@ let dump_bank (b : M.bank) : string =
                      zs b.M.b_prog; zs b.M.b_last_update; zs b.M.b_em_rem; zs b.M.b_lend_cnt; zs b.M.b_bor_cnt]
 
 let dump_la (la : M.balance list) : string =
-  let parts = List.filter_map (fun x -> x)
-    (List.mapi (fun i (bl : M.balance) ->
+  let parts = Stdlib.List.filter_map (fun x -> x)
+    (Stdlib.List.mapi (fun i (bl : M.balance) ->
        if bl.M.bl_active then
          Some (String.concat ":" [string_of_int i; zs bl.M.bl_bank; zs bl.M.bl_tag; zs bl.M.bl_a; zs bl.M.bl_l; zs bl.M.bl_em; zs bl.M.bl_last])
        else None) la) in
@@ -34,8 +39,8 @@ let suite_bankops (line : string) : string =
   let nb = ni t in let na = ni t in
   let pf = parse_pf t in
   let now0 = nz t in
-  let banks = List.init nb (fun _ -> parse_bank t) in
-  let accts = List.init na (fun _ -> M.la_empty) in
+  let banks = Stdlib.List.init nb (fun _ -> parse_bank t) in
+  let accts = Stdlib.List.init na (fun _ -> M.la_empty) in
   let w = ref { M.bw_banks = banks; bw_accts = accts; bw_now = now0; bw_pf = pf } in
   let nops = ni t in
   let out = ref [] in
@@ -62,10 +67,10 @@ let suite_bankops (line : string) : string =
       match M.bstep !w o with
       | M.Ok (w', r) -> w := w'; (match r with None -> "OK" | Some v -> "OK " ^ zs v)
       | M.Err e -> err_s e in
-    let bd = match bi with Some b -> dump_bank (List.nth !w.M.bw_banks (nat_to_int b)) | None -> "-" in
-    let ad = match ai with Some a -> dump_la (List.nth !w.M.bw_accts (nat_to_int a)) | None -> "-" in
+    let bd = match bi with Some b -> dump_bank (Stdlib.List.nth !w.M.bw_banks (nat_to_int b)) | None -> "-" in
+    let ad = match ai with Some a -> dump_la (Stdlib.List.nth !w.M.bw_accts (nat_to_int a)) | None -> "-" in
     out := (res ^ " # " ^ bd ^ " # " ^ ad) :: !out
   done;
-  String.concat " | " (List.rev !out)
+  String.concat " | " (Stdlib.List.rev !out)
 
 let () = register "bankops" suite_bankops
